@@ -68,6 +68,10 @@ func runA8(c *core.Ctx) {
 				c.Undecided(fn+"/flags", fd.Pos(), "cannot enumerate emitted sequences")
 				continue
 			}
+			if anyTrunc(seqs) {
+				c.Undecided(fn+"/flags", fd.Pos(), "a helper could not be inlined within the path budget")
+				continue
+			}
 			ncons := 0
 			var badPos token.Pos
 			badWhy := ""
